@@ -121,13 +121,16 @@ def h_time_fields(env):
     from . import c15
     from ..symtime import MAX_US, US_PER_SEC
 
-    i = env.choose("td", len(c15.BOUNDARY_TD) + 1)
-    us = env.zint("td_us", -c15.DUR_MAX_US, c15.DUR_MAX_US) if i == len(c15.BOUNDARY_TD) else env.zint("td_us", c15.BOUNDARY_TD[i], c15.BOUNDARY_TD[i])
-    j = env.choose("ts", len(c15.BOUNDARY_TS) + 1)
-    if j == len(c15.BOUNDARY_TS):
+    n = max(len(c15.BOUNDARY_TD), len(c15.BOUNDARY_TS))
+    k = env.choose("case", n + 1)
+    if k == n:
+        us = env.zint("td_us", -c15.DUR_MAX_US, c15.DUR_MAX_US)
         off, lus = env.zint("offset_min", -1439, 1439), env.zint("local_us", 0, MAX_US)
     else:
-        lus, off = env.zint("local_us", c15.BOUNDARY_TS[j][0], c15.BOUNDARY_TS[j][0]), env.zint("offset_min", c15.BOUNDARY_TS[j][1], c15.BOUNDARY_TS[j][1])
+        tdv = c15.BOUNDARY_TD[k % len(c15.BOUNDARY_TD)]
+        tsv = c15.BOUNDARY_TS[k % len(c15.BOUNDARY_TS)]
+        us = env.zint("td_us", tdv, tdv)
+        lus, off = env.zint("local_us", tsv[0], tsv[0]), env.zint("offset_min", tsv[1], tsv[1])
     inst = lus - off * 60 * US_PER_SEC
     env.assume(sym.sym_and(inst >= 0, inst <= MAX_US))
     env.check("reached", True)
